@@ -22,6 +22,12 @@ package storage
 // Put options: NewPutOptions is a deterministic function of the option list, PutOptions methods are accessors.
 //@ trusted pure func NewPutOptions(options) (r)
 //@   ensures r != nil
+// (ca-D2) what an option list means for atomicity (trusted: the options are function values applied in a loop; the
+// pieces are verified - newPutOptions#post[defaults], PutWithAtomic#closure-post[0.requests-atomicity],
+// PutWithSuggestedChunkSize#closure-post[0.atomic-untouched], putOptions.Atomic): no option, no atomicity; the single
+// option PutWithAtomic() requests it
+//@   ensures len(options) == 0 ==> !r.Atomic()
+//@   ensures len(options) == 1 && options[0] == PutWithAtomic() ==> r.Atomic()
 //@ trusted pure interface PutOptions
 //
 // ---- matcher.go (C14): boolean semantics of the combinators; a Matcher is a deterministic predicate on paths
